@@ -1,5 +1,33 @@
 //! Writers with legal but unusual behaviour, shared by the encoder properties.
 
+/// A peer that stalls once: takes bytes until `accept` have arrived, answers the next call with `WouldBlock` (or `Interrupted`)
+/// and takes everything from then on. What an encoder may do with it: report the error, or deliver every byte exactly once.
+pub struct StallWriter {
+    pub accept: usize,
+    pub kind: std::io::ErrorKind,
+    pub stalled: bool,
+    pub got: Vec<u8>,
+}
+
+impl std::io::Write for StallWriter {
+    fn write(&mut self, buf: &[u8]) -> std::io::Result<usize> {
+        if !self.stalled {
+            if self.got.len() >= self.accept {
+                self.stalled = true;
+                return Err(std::io::Error::new(self.kind, "peer not ready"));
+            }
+            let n = buf.len().min(self.accept - self.got.len());
+            self.got.extend_from_slice(&buf[..n]);
+            return Ok(n);
+        }
+        self.got.extend_from_slice(buf);
+        Ok(buf.len())
+    }
+    fn flush(&mut self) -> std::io::Result<()> {
+        Ok(())
+    }
+}
+
 /// Accepts at most `max` bytes per call and reports how many it took.
 pub struct ShortWriter {
     pub max: usize,
